@@ -1,5 +1,6 @@
 import SdcModel.MdibDescr
 import SdcModel.Proofs.MdibMono
+import SdcModel.Proofs.MdibHist
 /-! # C03 — transactions are atomic (property theorems over the provider model)
 A transaction that does not commit (application raised, API call rejected, consistency check failed) returns exactly the
 tables it started from and an empty result; a commit over well-formed tables cannot die half-way. -/
@@ -79,5 +80,29 @@ theorem commit_fails_on_uuid_collision :
   ⟨{ ver := 1, descrs := [⟨4, none, .context, 0, 0, some 4⟩],
      ctx := [{ h := 10, dh := 4, dv := 0, sv := 2, body := 0, assoc := .no, bindV := none, unbindV := none, bindT := none, unbindT := none }] },
    ⟨[.mk 4 10 false false 8 0], false, false⟩, by decide⟩
+
+/-- a descriptor transaction over well-formed tables (`KOK`: kind discipline, `DScriptOK`: well-formed entities for
+    `write_entity`) never dies half-way: the only commit-time failure is the consistency check, which runs before the
+    first write -/
+theorem commit_never_fails_descriptor_partial (t : Tables) (s : DScript) (hw : WF t) (hk : KOK t) (hs : DScriptOK t s)
+    (hf : (runD t s).2.2 = .commitFailed) : (runD t s).1 = t ∧ (runD t s).2.1 = {} := by
+  refine ⟨(runD_ok hw hk s hs).1 hf, ?_⟩
+  revert hf; unfold runD
+  split
+  · simp
+  · split
+    · simp
+    · split
+      · simp
+      · split <;> simp
+
+/-- all seven kinds: a transaction that does not end `committed` has changed nothing -/
+theorem transaction_all_or_nothing (t : Tables) (sc : Script) (hw : WF t) (hk : KOK t) (h : StepOK true t sc)
+    (hn : (runScript t sc).2.2 ≠ .committed) : (runScript t sc).1 = t := by
+  by_cases hf : (runScript t sc).2.2 = .commitFailed
+  · exact runScript_atomic hw hk sc h hf
+  · apply runScript_unchanged
+    revert hn hf
+    cases (runScript t sc).2.2 <;> simp
 
 end Sdc.C03
